@@ -343,6 +343,32 @@ theorem xff_appended (prior : List Bytes) (host : Bytes) (h : (joinWith commaSpa
     keepXFF prior host = joinWith commaSpace prior ++ commaSpace ++ host := by
   simp [keepXFF, h]
 
+/-! ## retried attempts -/
+
+/-- **every attempt sends the same forwarding fields.** However many upstream round trips fail and are
+    retried, with or without request header operations (`header_up`) configured, every request handed
+    to the transport carries exactly the X-Forwarded-For, -Proto and -Host that `prepareRequest`
+    computed once (`serve`), with the operator's own operations applied once.  So all theorems above
+    speak about every attempt, not only the first. -/
+theorem every_attempt_sends_the_same_forwarded_headers (N : Net Addr Prefix) (cfg : Cfg Prefix) (c : Conn)
+    (w : List (Bytes × Bytes)) (ops : Ops) (fails : Nat) :
+    serveAttempts N cfg c w ops fails =
+      (serve N cfg c w).fwd.map (fun f => List.replicate (fails + 1) (opsFwd ops f)) := by
+  unfold serveAttempts serve
+  simp only [Option.map_map]
+  congr 1
+  funext h
+  exact proxyLoop_eq ops h fails h (fun _ => rfl)
+
+/-- in particular no two attempts differ, and a retried attempt of an untrusted peer's request is as
+    header-blind as the first one -/
+theorem retried_attempts_untrusted (N : Net Addr Prefix) (cfg : Cfg Prefix) (c : Conn)
+    (w w' : List (Bytes × Bytes)) (ops : Ops) (fails : Nat) (hu : peerTrusted N cfg c = false)
+    (hc : wireValues w kConnection = wireValues w' kConnection) :
+    serveAttempts N cfg c w ops fails = serveAttempts N cfg c w' ops fails := by
+  rw [every_attempt_sends_the_same_forwarded_headers, every_attempt_sends_the_same_forwarded_headers,
+    untrusted_forwarding_headers_irrelevant N cfg c w w' hu hc]
+
 /-! ## model artefacts -/
 
 /-- `strings.TrimSpace`'s fuel (the input length) is never exhausted: nothing is left to trim -/
@@ -413,6 +439,19 @@ example : (joinWith commaSpace [b!"a", b!""]).isEmpty = false := by decide
 -- client_ip_is_peer_or_header_element: here the second disjunct, with the element " 9.9.9.9:1234 "
 example : b!" 9.9.9.9:1234 " ∈ elements (wireValues exHeaders (canonKey b!"X-Forwarded-For")) ∧
     partAddr toyNet b!" 9.9.9.9:1234 " = some b!"9.9.9.9" := by decide
+-- every_attempt_sends_the_same_forwarded_headers / retried_attempts_untrusted: two failed round trips,
+-- a header_up op, spoofed forwarding headers from an untrusted peer
+example : serveAttempts toyNet exCfg exUntrusted exHeaders .setOther 2 =
+    some (List.replicate 3 ⟨some (some [b!"fe80::1"]), some (some [b!"https"]), some (some [b!"example.com"])⟩) := by
+  decide
+example : serveAttempts toyNet exCfg exTrusted exHeaders .delXFH 1 =
+    some (List.replicate 2 ⟨some (some [b!"junk, 9.9.9.9:1234 ,10.0.0.2,  [::1]:80,1.2.3.4%eth0, 10.0.0.1"]),
+                            some (some [b!"wss"]), none⟩) := by decide
+-- a field pre-set to nil is not sent on any attempt, with or without header_up (nil, resp. not carried over)
+example : serveAttempts toyNet witCfg witConn [] .none 1 =
+    some (List.replicate 2 ⟨some none, some (some [b!"http"]), some (some [b!"a"])⟩) ∧
+  serveAttempts toyNet witCfg witConn [] .setOther 1 =
+    some (List.replicate 2 ⟨none, some (some [b!"http"]), some (some [b!"a"])⟩) := by decide
 -- elements_are_per_value
 example : elements [b!"a,b", b!"", b!"c"] = [b!"a", b!"b", b!"", b!"c"] := by decide
 -- trimSpace_never_runs_out_of_fuel: NBSP, EM SPACE and ASCII blanks around an address
